@@ -12,7 +12,7 @@ import itertools
 
 import z3
 
-MAX_ROUNDS = 6
+MAX_ROUNDS = 12
 
 
 def nnf(assertions):
@@ -104,6 +104,8 @@ class Instantiator:
         self.visited = {}
         self.instances = {}      # key -> formula
         self.n_inst = 0
+        self.offsets = False
+        self.base_terms = set()
 
     # ---- arrays known equal (a == b facts) share their read sets
     def find(self, r):
@@ -199,9 +201,22 @@ class Instantiator:
                 for rid in arrays[vi]:
                     pool.update(self.reads.get(rid, {}))
                 pool.update(extra[vi])
+                if self.offsets:
+                    for c in (0, 1):
+                        u = z3.IntVal(c)
+                        pool.setdefault(u.get_id(), u)
+                    # neighbours of the original index terms (lists that are shifted copies of one another: [epoch, *release], x[1:], ...)
+                    for t in list(pool.values()):
+                        if t.get_id() in self.base_terms:
+                            for d in (1, -1):
+                                u = z3.simplify(t + d)
+                                pool.setdefault(u.get_id(), u)
             else:
+                # no array read at this variable: only the index terms of the original problem (never derived ones - no feedback)
                 for d in self.reads.values():
-                    pool.update(d)
+                    for k, t in d.items():
+                        if not self.base_terms or k in self.base_terms:
+                            pool[k] = t
             pools.append(pool)
         return pools          # index by de Bruijn var index
 
@@ -237,6 +252,7 @@ class Instantiator:
             self.scan(g)
         for q in self.quant:
             self.scan(q)        # ground reads inside quantified formulas count as well
+        self.base_terms = {k for d in self.reads.values() for k in d}
         result = []
         rounds = 0
         last = -1
@@ -253,8 +269,9 @@ class Instantiator:
                                       "index_terms": last}
 
 
-def to_qf(assertions):
+def to_qf(assertions, offsets=False):
     it = Instantiator(assertions)
+    it.offsets = offsets
     if not it.quant:
         return it.ground, {"quantified": 0, "instances": 0, "rounds": 0, "index_terms": 0}
     return it.run()
